@@ -143,6 +143,8 @@ def run(tier, seed):
         files = {"top.sv": items}
         files.update(headers())
         cases.append({"id": nid, "files": files, "top": "top.sv", "predef": table(t), "fn": "preprocess"})
+        if rng.random() < 0.15:
+            cases[-1]["nl"] = "\r\n"          # the same program with CRLF line ends
         by_id[str(nid)] = {"prog": prog, "table": t, "universe": "seeded"}
     vlib.log("C04: %d cases" % len(cases))
     records, hcases, results = ppcheck.build_run_records(cases, "c04", check_origins=False)
